@@ -538,8 +538,8 @@ func (s *Sched) loop() {
 			s.out.Preemptions++
 		}
 		// F13: set the chosen task aside for a fake duration instead of running it.
-		if sp := s.cfg.Strategy.StallPermille; sp > 0 && s.tapePos >= len(s.cfg.Tape) && !t.Harness && s.rng[StStall].intn(1000) < sp {
-			d := time.Duration(1+s.rng[StStall].intn(s.cfg.Strategy.StallMaxMs+1)) * time.Millisecond
+		if sp := s.cfg.Strategy.StallPermille; sp > 0 && !t.Harness && s.choose(StStall, 1000) < sp {
+			d := time.Duration(1+s.choose(StStall, s.cfg.Strategy.StallMaxMs+1)) * time.Millisecond
 			s.ready = append(s.ready[:i], s.ready[i+1:]...)
 			t.state = tsBlockedSim
 			t.waitOn = "stalled"
